@@ -754,6 +754,9 @@ func (in *Interp) byteTerms(v value) []*smt.Term {
 }
 
 func (in *Interp) bytesEqual(a, b value) *smt.Term {
+	if r, ok := in.tokenBytesEqual(a, b); ok {
+		return r
+	}
 	ab, aok := a.(*bigBytes)
 	bb, bok := b.(*bigBytes)
 	if aok && bok {
